@@ -24,7 +24,7 @@ let () =
       let line = input_line stdin in
       if String.length line > 0 && line.[0] <> '#' then begin
         if line = "SIZES" then
-          print_endline ("SIZES " ^ String.concat " " (List.map string_of_z sizes))
+          print_endline ("SIZES " ^ String.concat " " (List.map string_of_z sizes2))
         else begin
           let toks = Array.of_list (split_ws line) in
           let data =
@@ -54,7 +54,7 @@ let () =
                | FErr e -> "err:" ^ err_names.(int_of_z (err_code e))
                | FPan t -> "!P(" ^ string_of_z t ^ ")"
                | FNoFuel -> "!NOFUEL")) (let bs = bytes_of_string data in o_fields o @ run_queries Debug bs @ run_lookups Debug bs @ run_stacks Debug bs @ run_prints Debug bs) in
-            let led = List.fold_left (fun a x -> let x = z_to_zt x in if ZA.compare x a > 0 then x else a) ZA.zero (o_ledger o) in
+            let led = List.fold_left (fun a x -> let x = z_to_zt x in if ZA.compare x a > 0 then x else a) ZA.zero (o_ledger o @ table_ledger Debug (bytes_of_string data)) in
             print_endline (String.concat ";" fs ^ ";led=" ^ ZA.to_string led)
           end
         end
